@@ -65,11 +65,11 @@ PROPS = {
         GO_SM + "; the manager handlers are the hand-written Node.v programs, tied to impl/*.go by the node correspondence suites (nodeterminal is the exhaustive terminal product)",
         corr=NODE_CORR,
         assumptions=["a reopened datastore yields a fresh machine on the stored record (m_init)"]),
-    "C07": P("props/C07.v", ["fsmreports", "fsmrace"],
+    "C07": P("props/C07.v", ["fsmreports", "fsmrace", "transport"],
         "Coq theorems (invariant by induction over report histories with restarts; closed payload formula) over Caches.fire and the generated FSM actions; correspondence of the real Channels.DataQueued/DataSent/DataReceived incl. cache contents against the model; direct totals monitors",
         "Machine-checked proof for every direction, block function and well-shaped history with process restarts anywhere: byte total = summed size of unique blocks at distinct reported positions (mod 2^64), index = highest position; replays and non-unique blocks never count; for arbitrary report lists total = sum of reports that advanced the lazily seeded mark.",
         "The concurrent clause is a theorem over all interleavings of a micro-step model (Conc.v: read-locked lookup, write-locked seed with re-check, atomic load, CAS, FSM-serialized events); it is tied to the code by the fsmrace suite, where the Go scheduler picks the interleaving (not enumerated) and the verdict is membership of the observed outcome in the set of sequential outcomes; atomicity of Go's CompareAndSwapInt64 / RWMutex and GetByID's synchronisation with the FSM queue are assumed; crash points are between reports (C07's quantifier)",
-        corr=["corr/CacheCorr.v", "corr/RaceCorr.v"]),
+        corr=NODE_CORR + ["corr/RaceCorr.v"]),
     "C08": P("props/C08.v", ["fsmreports", "nodeapi"],
         "Coq theorems over Caches.fire/set_limit (pause iff the advancing report brings the limited total to or past a non-zero limit; cache and store agree; restart re-seeds) ; enumerated limit boundaries (every prefix sum -1/0/+1, restart between reports) against the real Channels",
         "Machine-checked proof of the pause rule at cache/FSM level for all reports and limits, with the cache-consistency invariant preserved by reports, SetDataLimit and restarts. Manager-level resume/reject rules are in the node suites.",
@@ -105,6 +105,11 @@ PROPS = {
         "Machine-checked proof over all schedules of the hand-written model; the model is tied to channelmonitor.go by enumerated failure patterns, queued-restart placements, data-reset rounds, real-timer cases and generated schedules, each macro step proved to be a schedule of the model.",
         "real time is abstracted (a timer firing is a label; the harness uses real short timers and discards, never judges, cases whose prefix ran late); the debounce library's coalescing of error bursts is not exercised (one error per step); the wiring of the monitor into the real manager (RestartDataTransferChannel re-entering AddPushChannel / AddPullChannel, close through the channel FSM) is covered by the enumerated nodemonitor suite with direct monitors only; interleavings inside a macro step (e.g. a data event between the counter increment and ConnectTo) are covered by the theorems but cannot be forced on the real code",
         corr=["corr/MonitorCorr.v"]),
+    "C15": P("props/C15.v", ["net"],
+        "Coq theorems over a model of network/libp2p_impl.go (openStream's retry loop by induction for every attempt cap, failure pattern and cancellation point; SendMessage's write / reset / close discipline; handleNewStream's dispatch) with libp2p as an oracle; the real libp2pDataTransferNetwork over a scripted host / stream double is compared on enumerated and generated scripts, with direct monitors (attempt cap, success iff an attempt succeeded, delivered exactly once, reset + report on write failure, no attempt after cancellation, dispatch by kind with the authenticated peer, malformed streams reset and reported without a handler call)",
+        "Machine-checked proof over the hand-written model for all configurations and oracle answers; tied to the code by the enumerated product (configured attempts incl. 0 and non-integers x succeeding attempt x cancellation point x stream failures) and generated inbound byte streams of every message kind with truncations and garbage.",
+        "libp2p host / stream behaviour is scripted (oracle), real time is abstracted: 'cancelled during the k-th back-off' is an input realised with a back-off long enough for the cancelled context to win, and promptness is judged only if a late return repeats on an idle machine; whether inbound bytes form a message is decided by the codec (C12's subject): the codec rejects trailing bytes, so a stream carrying more than one message is malformed as a whole; a protocol the message cannot be converted to returns an error without resetting or closing the stream (modelled as such, noted in DESIGN.md)",
+        corr=["corr/NetCorr.v"]),
 }
 
 NOT_APPLICABLE = {}
